@@ -2,5 +2,6 @@
 import RB.Util.Driver
 import RB.Model.Stats
 import RB.Model.Cmdline
+import RB.Model.Denoise
 import RB.Proofs.C15
 import RB.Proofs.C03
